@@ -134,7 +134,26 @@ pub fn seam_sweep<P: ProvenanceStore>(store: &TamperStore<'_, P>, wl: &WlHist, t
         let consulted = store.served() > before;
         let r = match r {
             Err(p) => R::Panic(p),
-            Ok(Err(e)) => R::Err(format!("{e:?}")),
+            Ok(Err(e)) => {
+                // A caller that retries the same seek on the same cursor after a typed error must not
+                // be handed a state either: again a typed error, or the correct verified state.
+                let r2 = catch(|| c.seek_to(WorldlineTick::from_raw(t), store, &wl.base));
+                ctx.count("time.verifications", 1);
+                ctx.hit("reach.seek_retried_after_error");
+                let r2 = match r2 {
+                    Err(p) => R::Panic(p),
+                    Ok(Err(e2)) => R::Err(format!("{e2:?}")),
+                    Ok(Ok(())) => {
+                        if c.current_tick().as_u64() != t {
+                            R::Err(format!("cursor tick {} after retried seek_to({t})", c.current_tick().as_u64()))
+                        } else {
+                            R::Ok(verified(c.materialized_state()))
+                        }
+                    }
+                };
+                out.push(Obs { target: t, mode: "retry", consulted: true, r: r2 });
+                R::Err(format!("{e:?}"))
+            }
             Ok(Ok(())) => {
                 if c.current_tick().as_u64() != t {
                     R::Err(format!("cursor tick {} after seek_to({t})", c.current_tick().as_u64()))
